@@ -33,6 +33,13 @@ def check(ctx, rep, tier):
 
 def _key_is_score(k, cm=None):
     """lambda p: p.score / attrgetter('score') / a module function that returns its argument's score"""
+    if isinstance(k, ast.Name) and cm is not None and k.id not in cm.funcs:
+        # a module-level constant holding the key function
+        for st_node in cm.tree.body:
+            if isinstance(st_node, ast.Assign) and len(st_node.targets) == 1 and isinstance(st_node.targets[0], ast.Name) \
+                    and st_node.targets[0].id == k.id:
+                return _key_is_score(st_node.value, cm) if not isinstance(st_node.value, ast.Name) else False
+        return False
     if isinstance(k, ast.Name) and cm is not None and k.id in cm.funcs:
         g = cm.funcs[k.id]
         body = [b for b in g.body if not (isinstance(b, ast.Expr) and isinstance(b.value, ast.Constant))]
@@ -125,15 +132,31 @@ def _selection(ctx, rep, cm):
     if not ctor:
         raise AnalysisError("anchor vanished: empty-result construction in ctparse()")
     for c in ctor:
+        if not (c.args and isinstance(c.args[0], ast.Constant) and c.args[0].value is None):
+            continue      # only the result without resolution
+        # the innermost test that mentions the collected list (directly or through a local that
+        # holds the outcome of such a test), with the branch the construction sits on
         cur = getattr(c, "_parent", None)
+        child = c
         guard = None
-        while cur is not None and cur is not f:
-            if isinstance(cur, ast.If) and any(c is x for b in cur.body for x in ast.walk(b)):
-                guard = cur.test
+        negate = False
+        while cur is not None and cur is not f and guard is None:
+            if isinstance(cur, ast.If):
+                in_body = any(child is b or any(child is x for x in ast.walk(b)) for b in cur.body)
+                t = cur.test
+                if isinstance(t, ast.Name):
+                    defs = [a.value for a in ast.walk(f) if isinstance(a, ast.Assign) and len(a.targets) == 1
+                            and isinstance(a.targets[0], ast.Name) and a.targets[0].id == t.id]
+                    if len(defs) == 1:
+                        t = defs[0]
+                if any(isinstance(x, ast.Name) and x.id == lst for x in ast.walk(t)):
+                    guard = t
+                    negate = not in_body
+            child = cur
             cur = getattr(cur, "_parent", None)
         ok = False
         if guard is not None:
-            ok = _empty_test(guard, lst)
+            ok = _empty_test(guard, lst, negate)
         rep.add("empty-iff-empty", cm.rel + "::ctparse::empty result guard", cm.where(c), ok,
                 "" if ok else "the result without resolution is built under the test '{}'".format(
                     norm(guard) if guard is not None else "<none>"))
@@ -155,7 +178,7 @@ def _selection(ctx, rep, cm):
             "" if ok else "the candidates are not list(ctparse_gen(...))")
 
 
-def _empty_test(test, lst):
+def _empty_test(test, lst, negate=False):
     """Evaluate the guard on lists of length 0, [None], [x], [x, y]: must be true exactly
     for the empty list and the single None."""
     from ..e1_model import PureEval
@@ -174,7 +197,7 @@ def _empty_test(test, lst):
             return False
         except Exception:
             return False
-        results.append(bool(r))
+        results.append(bool(r) != bool(negate))
     return results == [True, True, False, False, False]
 
 
@@ -292,12 +315,11 @@ def _strict(ctx, rep, cm):
             continue
         # a table that is filled outside the loop of this test is a lookup set prepared beforehand
         # (e.g. the words to leave out), not a table of what this loop has already let through
-        loop_ = None
+        loop_ = None      # the outermost loop around the test
         cur_ = getattr(node, "_parent", None)
         while cur_ is not None and cur_ is not f:
             if isinstance(cur_, (ast.For, ast.While)):
                 loop_ = cur_
-                break
             cur_ = getattr(cur_, "_parent", None)
 
         def _writes(tname, scope):
